@@ -334,3 +334,290 @@ Proof.
   split; [rewrite !env_get_set_other by discriminate; apply env_get_set_same|].
   apply env_get_set_same.
 Qed.
+
+(* ---------- operand expressions never mention the second temporary ---------- *)
+Lemma kT1_not_reg n : reg_name_ok n = true -> n <> fst kT1.
+Proof. intros H E. cbn in E. subst n. cbn in H. discriminate. Qed.
+
+Lemma opv_no_T1 m sz o e : src_operand_ok m sz o -> opv m sz o = Ok e -> mentions kT1 e = false.
+Proof.
+  intros Ho Oe. destruct o as [r0|r0| |v0]; cbn in Ho; try contradiction.
+  - destruct (reg_operand_shape m sz (OReg r0) Ho) as (sd0 & Hs0 & Hr0 & _). destruct (operand_shape_xreg _ _ _ _ _ Hs0) as (X0 & V0 & _).
+    unfold opv in Oe. rewrite X0 in Oe. apply (reg_get_mentions _ _ _ _ V0 Oe kT1). apply kT1_not_reg. apply gpr_name_ok. exact Hr0.
+  - destruct (reg_operand_shape m sz (ORegH r0) Ho) as (sd0 & Hs0 & Hr0 & _). destruct (operand_shape_xreg _ _ _ _ _ Hs0) as (X0 & V0 & _).
+    unfold opv in Oe. rewrite X0 in Oe. apply (reg_get_mentions _ _ _ _ V0 Oe kT1). apply kT1_not_reg. apply gpr_name_ok. exact Hr0.
+  - cbn [opv] in Oe. inversion Oe; subst e. reflexivity.
+Qed.
+
+(* a register operand as an expression: everything the cores need *)
+Lemma reg_expr_facts m sz o s st sd : wf m s -> emb m s st -> reg_operand_ok m sz o ->
+  operand_shape m sz o = Some (gpr_name m (oreg o), sd) ->
+  exists e, opv m sz o = Ok e /\ e_bits e = sz /\ clean e = true /\ mentions kT1 e = false /\
+            0 <= arch_read sd (wordsz m) (rget (x_gpr s) (oreg o)) < 2 ^ sz /\
+            den (st_env st) e = Ok (mkc sz (arch_read sd (wordsz m) (rget (x_gpr s) (oreg o)))).
+Proof.
+  intros Hw He Ho Hs.
+  assert (Hso: src_operand_ok m sz o) by (destruct o; cbn in Ho |- *; try contradiction; exact Ho).
+  destruct (src_expr m sz o s st Hw He Hso) as (e & b & Oe & Be & Hb & De & Ce & Re).
+  destruct (reg_operand_shape m sz o Ho) as (sd' & Hs' & Hr & Hi). rewrite Hs in Hs'. inversion Hs'; subst sd'.
+  pose proof (rd_reg_operand m sz o s sd Hi Hs) as Rd. rewrite Re in Rd. inversion Rd; subst b.
+  exists e. repeat split; try assumption; try lia. apply (opv_no_T1 m sz o e Hso Oe).
+Qed.
+
+Lemma frame_regs m (st2 st : sstate) :
+  (forall k, k <> kT0 -> k <> kT1 -> k <> kZF -> k <> kSF -> k <> kOF -> k <> kCF -> env_get (st_env st2) k = env_get (st_env st) k) ->
+  (forall r0, 0 <= r0 < ngpr m -> env_get (st_env st2) (gpr_name m r0, None) = env_get (st_env st) (gpr_name m r0, None)) /\
+  env_get (st_env st2) kDF = env_get (st_env st) kDF /\ env_get (st_env st2) kTM = env_get (st_env st) kTM.
+Proof.
+  intros Fr. split; [|split].
+  - intros r0 Hr0. destruct (reg_key_facts m r0 Hr0) as (K0 & K1 & K2 & K3 & K4 & _ & _).
+    apply Fr; try assumption. intros E. apply (kT1_not_reg _ (gpr_name_ok m _ Hr0)). rewrite <- E. reflexivity.
+  - apply Fr; flagkeys; unfold kT1; congruence.
+  - apply Fr; flagkeys; unfold kT1, kTM; congruence.
+Qed.
+
+(* ---------- adc r, r | imm ---------- *)
+Theorem adc_sim m addr len sz dst src :
+  reg_operand_ok m sz dst -> src_operand_ok m sz src -> width_ok sz -> sim m addr len (IAlu AAdc sz dst src).
+Proof.
+  intros Hd Hsrc Hwd s st s' ip Hw He Hstep.
+  destruct (reg_operand_shape m sz dst Hd) as (sd & Hs & Hr & Hi).
+  destruct (reg_expr_facts m sz dst s st sd Hw He Hd Hs) as (lhs & Ol & Bl & Cl & Ml & Ha & Dl).
+  destruct (src_expr m sz src s st Hw He Hsrc) as (rhs & b & Os & Br & Hb & Dr & Cr & Rs).
+  pose proof (opv_no_T1 m sz src rhs Hsrc Os) as Mr.
+  pose proof (rd_reg_operand m sz dst s sd Hi Hs) as Rd.
+  set (a := arch_read sd (wordsz m) (rget (x_gpr s) (oreg dst))) in *.
+  unfold step in Hstep. rewrite Rd, Rs in Hstep. cbn [alu_reads_cf] in Hstep.
+  pose proof (emb_cf _ _ _ He) as Ecf0. destruct (f_cf (x_fl s)) as [cin|] eqn:Fc; cbn [flag_is] in Hstep; [|discriminate]. cbn [emb_flag] in Ecf0.
+  cbn [alu alu_writes] in Hstep.
+  destruct (adc_core st sz a b cin lhs rhs Hwd Bl Br Ha Hb Dl Dr Cl Cr Ml Mr Ecf0)
+    as (zf & sf & of & c & st2 & E1 & Ez & E0 & Zf & Sf & Of & Ec & Hasg & Hex & Hfr & Hm & Hr0 & G0 & Gz & Gs & Go & Gc).
+  set (r := U sz (a + b + X86.b2z cin)) in *.
+  destruct (frame_regs m st2 st Hfr) as (Fr & Fd & _).
+  set (fl' := fl_arith (x_fl s) (FB (2 ^ sz <=? a + b + X86.b2z cin)) (FB (X86.sovf sz (X86.Sg sz a + X86.Sg sz b + X86.b2z cin))) sz r).
+  destruct (finish_reg m s st st2 dst sz sd r (T0e sz) fl' Hw He Hr Hi Hs Hr0 eq_refl (T0e_den _ _ _ G0) Fr Fd Hm eq_refl Gc Gz Gs Go)
+    as (o1 & st3 & s2 & Hops & Ia & Hex3 & Hwr & Hemb & Hwf).
+  fold r fl' in Hstep. rewrite Hwr in Hstep. inversion Hstep; subst s' ip.
+  set (core := [OAssign (temp_k 1 sz) (EBin Add lhs rhs); OAssign (temp_k 0 sz) (EBin Add (T1e sz) (EExt Zext sz (EScalar (flag_scalar X86Lift.n_CF)))); zf; sf; of; assign_flag X86Lift.n_CF c]) in *.
+  exists (one_block addr (core ++ [o1])). split.
+  - unfold mirror_instr. rewrite Hi, (src_regimm _ _ _ Hsrc). cbn [andb]. unfold lift_alu, lift_alu_rhs. cbn [lift_alu_gen option_map].
+    rewrite Ol, Os. cbn [bind]. rewrite E1. cbn [bind]. rewrite Ez. cbn [bind]. fold (T1e sz). rewrite E0. cbn [bind]. fold (T0e sz). rewrite Zf. cbn [bind]. rewrite Sf. cbn [bind]. rewrite Of. cbn [bind].
+    revert Ec. destruct (mk_bin Cmpltu (T1e sz) lhs) as [c1| |]; cbn [bind]; try discriminate.
+    destruct (mk_bin Cmpltu (T0e sz) (T1e sz)) as [c2| |]; cbn [bind]; try discriminate. intros Ec. rewrite Ec. cbn [bind].
+    rewrite Hops. cbn [bind]. reflexivity.
+  - exists st3. split; [|auto]. apply run_one_block_nb; [|unfold core; discriminate|unfold core; cbn [length app]; lia|].
+    + apply assign_nobranch. rewrite forallb_app. rewrite Hasg. cbn [forallb]. rewrite Ia. reflexivity.
+    + rewrite (exec_ops_app _ _ _ _ Hex). exact Hex3.
+Qed.
+
+(* ---------- adc r, [m] ---------- *)
+Theorem adc_load_sim m addr len sz dst src :
+  reg_operand_ok m sz dst -> mem_operand_ok m src -> width_ok sz ->
+  sim_when (no_wrap sz src) m addr len (IAlu AAdc sz dst src).
+Proof.
+  intros Hd Hsrc Hwd s st s' ip Hw He Hnw Hstep.
+  destruct (reg_operand_shape m sz dst Hd) as (sd & Hs & Hr & Hi).
+  pose proof (rd_reg_operand m sz dst s sd Hi Hs) as Rd.
+  unfold step in Hstep. rewrite Rd in Hstep. destruct (rd_op sz src s) as [b|] eqn:Hrd; [|discriminate].
+  destruct (load_step m sz src s st b Hw He Hsrc Hwd Hnw Hrd) as (ae & ev & Ea & Ex1 & _ & Hb).
+  set (st1 := mkst (env_set (st_env st) kTM (mkc sz b)) (st_mem st)) in *.
+  pose proof (emb_set_temp m s st sz b He) as He1. fold st1 in He1.
+  assert (Dr: den (st_env st1) (EScalar (temp_main sz)) = Ok (mkc sz b)) by (apply temp_main_den; unfold st1; cbn [st_env]; apply env_get_set_same).
+  destruct (reg_expr_facts m sz dst s st1 sd Hw He1 Hd Hs) as (lhs & Ol & Bl & Cl & Ml & Ha & Dl).
+  set (a := arch_read sd (wordsz m) (rget (x_gpr s) (oreg dst))) in *.
+  cbn [alu_reads_cf] in Hstep.
+  pose proof (emb_cf _ _ _ He1) as Ecf0. destruct (f_cf (x_fl s)) as [cin|] eqn:Fc; cbn [flag_is] in Hstep; [|discriminate]. cbn [emb_flag] in Ecf0.
+  cbn [alu alu_writes] in Hstep.
+  destruct (adc_core st1 sz a b cin lhs (EScalar (temp_main sz)) Hwd Bl eq_refl Ha Hb Dl Dr Cl eq_refl Ml eq_refl Ecf0)
+    as (zf & sf & of & c & st2 & E1 & Ez & E0 & Zf & Sf & Of & Ec & Hasg & Hex & Hfr & Hm & Hr0 & G0 & Gz & Gs & Go & Gc).
+  set (r := U sz (a + b + X86.b2z cin)) in *.
+  destruct (frame_regs m st2 st1 Hfr) as (Fr & Fd & _).
+  set (fl' := fl_arith (x_fl s) (FB (2 ^ sz <=? a + b + X86.b2z cin)) (FB (X86.sovf sz (X86.Sg sz a + X86.Sg sz b + X86.b2z cin))) sz r).
+  destruct (finish_reg m s st1 st2 dst sz sd r (T0e sz) fl' Hw He1 Hr Hi Hs Hr0 eq_refl (T0e_den _ _ _ G0) Fr Fd Hm eq_refl Gc Gz Gs Go)
+    as (o1 & st3 & s2 & Hops & Ia & Hex3 & Hwr & Hemb & Hwf).
+  fold r fl' in Hstep. rewrite Hwr in Hstep. inversion Hstep; subst s' ip.
+  destruct (mem_operand_facts m src s Hw Hsrc) as (_ & _ & _ & Im). destruct (is_mem_not_reg _ Im) as (_ & Rg).
+  set (rhs := EScalar (temp_main sz)) in *.
+  set (core := [OAssign (temp_k 1 sz) (EBin Add lhs rhs); OAssign (temp_k 0 sz) (EBin Add (T1e sz) (EExt Zext sz (EScalar (flag_scalar X86Lift.n_CF)))); zf; sf; of; assign_flag X86Lift.n_CF c]) in *.
+  exists (one_block addr (OLoad (temp_main sz) ae :: core ++ [o1])). split.
+  - unfold mirror_instr. rewrite Hi, Im, Rg. cbn [andb]. unfold lift_alu_load. rewrite Ea. unfold lift_alu_rhs. cbn [lift_alu_gen option_map].
+    rewrite Ol. cbn [bind]. fold rhs. rewrite E1. cbn [bind]. rewrite Ez. cbn [bind]. fold (T1e sz). rewrite E0. cbn [bind]. fold (T0e sz). rewrite Zf. cbn [bind]. rewrite Sf. cbn [bind]. rewrite Of. cbn [bind].
+    revert Ec. destruct (mk_bin Cmpltu (T1e sz) lhs) as [c1| |]; cbn [bind]; try discriminate.
+    destruct (mk_bin Cmpltu (T0e sz) (T1e sz)) as [c2| |]; cbn [bind]; try discriminate. intros Ec. rewrite Ec. cbn [bind].
+    rewrite Hops. cbn [bind]. reflexivity.
+  - exists st3. split; [|auto]. apply run_one_block_nb; [|discriminate|unfold core; cbn [length app]; lia|].
+    + cbn [nobranch forallb is_branch negb andb]. apply assign_nobranch. rewrite forallb_app. rewrite Hasg. cbn [forallb]. rewrite Ia. reflexivity.
+    + change (OLoad (temp_main sz) ae :: core ++ [o1]) with ([OLoad (temp_main sz) ae] ++ (core ++ [o1])).
+      rewrite (exec_ops_app [OLoad (temp_main sz) ae] _ st st1) by (cbn [exec_ops]; rewrite Ex1; reflexivity).
+      rewrite (exec_ops_app _ _ _ _ Hex). exact Hex3.
+Qed.
+
+(* ---------- adc [m], r | imm ---------- *)
+Theorem adc_rmw_sim m addr len sz dst src :
+  mem_operand_ok m dst -> src_operand_ok m sz src -> width_ok sz ->
+  sim_when (no_wrap sz dst) m addr len (IAlu AAdc sz dst src).
+Proof.
+  intros Hd Hsrc Hwd s st s' ip Hw He Hnw Hstep.
+  destruct (mem_operand_facts m dst s Hw Hd) as (Hea & A64 & P64 & Im). destruct (is_mem_not_reg _ Im) as (Ir & Irg).
+  unfold step in Hstep. destruct (rd_op sz dst s) as [a|] eqn:Hrd; [|discriminate].
+  destruct (load_step m sz dst s st a Hw He Hd Hwd Hnw Hrd) as (ae & ev & Ea & Ex1 & _ & Ha).
+  set (st1 := mkst (env_set (st_env st) kTM (mkc sz a)) (st_mem st)) in *.
+  pose proof (emb_set_temp m s st sz a He) as He1. fold st1 in He1.
+  assert (Dl: den (st_env st1) (EScalar (temp_main sz)) = Ok (mkc sz a)) by (apply temp_main_den; unfold st1; cbn [st_env]; apply env_get_set_same).
+  destruct (src_expr m sz src s st1 Hw He1 Hsrc) as (rhs & b & Os & Br & Hb & Dr & Cr & Rs).
+  pose proof (opv_no_T1 m sz src rhs Hsrc Os) as Mr.
+  rewrite Rs in Hstep. cbn [alu_reads_cf] in Hstep.
+  pose proof (emb_cf _ _ _ He1) as Ecf0. destruct (f_cf (x_fl s)) as [cin|] eqn:Fc; cbn [flag_is] in Hstep; [|discriminate]. cbn [emb_flag] in Ecf0.
+  cbn [alu alu_writes] in Hstep.
+  destruct (adc_core st1 sz a b cin (EScalar (temp_main sz)) rhs Hwd eq_refl Br Ha Hb Dl Dr eq_refl Cr eq_refl Mr Ecf0)
+    as (zf & sf & of & c & st2 & E1 & Ez & E0 & Zf & Sf & Of & Ec & Hasg & Hex & Hfr & Hm & Hr0 & G0 & Gz & Gs & Go & Gc).
+  set (r := U sz (a + b + X86.b2z cin)) in *.
+  destruct (frame_regs m st2 st1 Hfr) as (Fr1 & Fd1 & _).
+  assert (Fr: forall r0, 0 <= r0 < ngpr m -> env_get (st_env st2) (gpr_name m r0, None) = env_get (st_env st) (gpr_name m r0, None)).
+  { intros r0 Hr0'. rewrite Fr1 by exact Hr0'. unfold st1. cbn [st_env]. apply env_get_set_other. destruct (reg_key_facts m r0 Hr0') as (_ & _ & _ & _ & _ & K5 & _). exact K5. }
+  assert (Fd: env_get (st_env st2) kDF = env_get (st_env st) kDF) by (rewrite Fd1; unfold st1; cbn [st_env]; apply env_get_set_other; unfold kDF, kTM; discriminate).
+  assert (Hm2: st_mem st2 = st_mem st) by (rewrite Hm; reflexivity).
+  set (fl' := fl_arith (x_fl s) (FB (2 ^ sz <=? a + b + X86.b2z cin)) (FB (X86.sovf sz (X86.Sg sz a + X86.Sg sz b + X86.b2z cin))) sz r).
+  fold r fl' in Hstep.
+  destruct (option_map (fun s1 => set_fl s1 fl') (wr_op sz dst r s)) as [s2|] eqn:Hwr; [|discriminate].
+  inversion Hstep; subst s' ip.
+  destruct (finish_mem m s st st2 dst sz r ae (T0e sz) fl' Hw He Hd Hwd Hnw Ea Hr0 (T0e_den _ _ _ G0) Fr Fd Hm2 eq_refl Gc Gz Gs Go s2 Hwr)
+    as (st3 & Hex3 & Hemb & Hwf).
+  set (lhs := EScalar (temp_main sz)) in *.
+  set (core := [OAssign (temp_k 1 sz) (EBin Add lhs rhs); OAssign (temp_k 0 sz) (EBin Add (T1e sz) (EExt Zext sz (EScalar (flag_scalar X86Lift.n_CF)))); zf; sf; of; assign_flag X86Lift.n_CF c]) in *.
+  exists (one_block addr (OLoad (temp_main sz) ae :: core ++ [OStore ae (T0e sz)])). split.
+  - unfold mirror_instr. rewrite Ir, Im, (src_regimm _ _ _ Hsrc). cbn [andb]. unfold lift_alu_rmw. rewrite Ea. cbn [lift_alu_gen bind].
+    rewrite Os. cbn [bind]. fold lhs. rewrite E1. cbn [bind]. rewrite Ez. cbn [bind]. fold (T1e sz). rewrite E0. cbn [bind]. fold (T0e sz). rewrite Zf. cbn [bind]. rewrite Sf. cbn [bind]. rewrite Of. cbn [bind].
+    revert Ec. destruct (mk_bin Cmpltu (T1e sz) lhs) as [c1| |]; cbn [bind]; try discriminate.
+    destruct (mk_bin Cmpltu (T0e sz) (T1e sz)) as [c2| |]; cbn [bind]; try discriminate. intros Ec. rewrite Ec. cbn [bind].
+    cbn [bind app]. reflexivity.
+  - exists st3. split; [|auto]. apply run_one_block_nb; [|discriminate|unfold core; cbn [length app]; lia|].
+    + cbn [nobranch forallb is_branch negb andb]. fold (nobranch (core ++ [OStore ae (T0e sz)])). unfold nobranch. rewrite forallb_app.
+      pose proof (assign_nobranch _ Hasg) as Nb. unfold nobranch in Nb. rewrite Nb. reflexivity.
+    + change (OLoad (temp_main sz) ae :: core ++ [OStore ae (T0e sz)]) with ([OLoad (temp_main sz) ae] ++ (core ++ [OStore ae (T0e sz)])).
+      rewrite (exec_ops_app [OLoad (temp_main sz) ae] _ st st1) by (cbn [exec_ops]; rewrite Ex1; reflexivity).
+      rewrite (exec_ops_app _ _ _ _ Hex). exact Hex3.
+Qed.
+
+(* ---------- sbb r, r | imm ---------- *)
+Theorem sbb_sim m addr len sz dst src :
+  reg_operand_ok m sz dst -> src_operand_ok m sz src -> width_ok sz -> sim m addr len (IAlu ASbb sz dst src).
+Proof.
+  intros Hd Hsrc Hwd s st s' ip Hw He Hstep.
+  destruct (reg_operand_shape m sz dst Hd) as (sd & Hs & Hr & Hi).
+  destruct (reg_expr_facts m sz dst s st sd Hw He Hd Hs) as (lhs & Ol & Bl & Cl & Ml & Ha & Dl).
+  destruct (src_expr m sz src s st Hw He Hsrc) as (rhs & b & Os & Br & Hb & Dr & Cr & Rs).
+  pose proof (opv_no_T1 m sz src rhs Hsrc Os) as Mr.
+  pose proof (rd_reg_operand m sz dst s sd Hi Hs) as Rd.
+  set (a := arch_read sd (wordsz m) (rget (x_gpr s) (oreg dst))) in *.
+  unfold step in Hstep. rewrite Rd, Rs in Hstep. cbn [alu_reads_cf] in Hstep.
+  pose proof (emb_cf _ _ _ He) as Ecf0. destruct (f_cf (x_fl s)) as [cin|] eqn:Fc; cbn [flag_is] in Hstep; [|discriminate]. cbn [emb_flag] in Ecf0.
+  cbn [alu alu_writes] in Hstep.
+  destruct (sbb_core st sz a b cin lhs rhs Hwd Bl Br Ha Hb Dl Dr Cl Cr Ml Mr Ecf0)
+    as (zf & sf & of & c & st2 & E1 & Ez & E0 & Zf & Sf & Of & Ec & Hasg & Hex & Hfr & Hm & Hr0 & G0 & Gz & Gs & Go & Gc).
+  set (r := U sz (a - b - X86.b2z cin)) in *.
+  destruct (frame_regs m st2 st Hfr) as (Fr & Fd & _).
+  set (fl' := fl_arith (x_fl s) (FB (a <? b + X86.b2z cin)) (FB (X86.sovf sz (X86.Sg sz a - X86.Sg sz b - X86.b2z cin))) sz r).
+  destruct (finish_reg m s st st2 dst sz sd r (T0e sz) fl' Hw He Hr Hi Hs Hr0 eq_refl (T0e_den _ _ _ G0) Fr Fd Hm eq_refl Gc Gz Gs Go)
+    as (o1 & st3 & s2 & Hops & Ia & Hex3 & Hwr & Hemb & Hwf).
+  fold r fl' in Hstep. rewrite Hwr in Hstep. inversion Hstep; subst s' ip.
+  set (core := [OAssign (temp_k 1 sz) (EBin Sub lhs rhs); OAssign (temp_k 0 sz) (EBin Sub (T1e sz) (EExt Zext sz (EScalar (flag_scalar X86Lift.n_CF)))); zf; sf; of; assign_flag X86Lift.n_CF c]) in *.
+  exists (one_block addr (core ++ [o1])). split.
+  - unfold mirror_instr. rewrite Hi, (src_regimm _ _ _ Hsrc). cbn [andb]. unfold lift_alu, lift_alu_rhs. cbn [lift_alu_gen option_map].
+    rewrite Ol, Os. cbn [bind]. rewrite E1. cbn [bind]. rewrite Ez. cbn [bind]. fold (T1e sz). rewrite E0. cbn [bind]. fold (T0e sz). rewrite Zf. cbn [bind]. rewrite Sf. cbn [bind]. rewrite Of. cbn [bind].
+    revert Ec. destruct (mk_bin Cmpltu lhs rhs) as [c1| |]; cbn [bind]; try discriminate.
+    destruct (mk_bin Cmpltu (T1e sz) (EExt Zext sz (EScalar (flag_scalar X86Lift.n_CF)))) as [c2| |]; cbn [bind]; try discriminate. intros Ec. rewrite Ec. cbn [bind].
+    rewrite Hops. cbn [bind]. reflexivity.
+  - exists st3. split; [|auto]. apply run_one_block_nb; [|unfold core; discriminate|unfold core; cbn [length app]; lia|].
+    + apply assign_nobranch. rewrite forallb_app. rewrite Hasg. cbn [forallb]. rewrite Ia. reflexivity.
+    + rewrite (exec_ops_app _ _ _ _ Hex). exact Hex3.
+Qed.
+
+(* ---------- sbb r, [m] ---------- *)
+Theorem sbb_load_sim m addr len sz dst src :
+  reg_operand_ok m sz dst -> mem_operand_ok m src -> width_ok sz ->
+  sim_when (no_wrap sz src) m addr len (IAlu ASbb sz dst src).
+Proof.
+  intros Hd Hsrc Hwd s st s' ip Hw He Hnw Hstep.
+  destruct (reg_operand_shape m sz dst Hd) as (sd & Hs & Hr & Hi).
+  pose proof (rd_reg_operand m sz dst s sd Hi Hs) as Rd.
+  unfold step in Hstep. rewrite Rd in Hstep. destruct (rd_op sz src s) as [b|] eqn:Hrd; [|discriminate].
+  destruct (load_step m sz src s st b Hw He Hsrc Hwd Hnw Hrd) as (ae & ev & Ea & Ex1 & _ & Hb).
+  set (st1 := mkst (env_set (st_env st) kTM (mkc sz b)) (st_mem st)) in *.
+  pose proof (emb_set_temp m s st sz b He) as He1. fold st1 in He1.
+  assert (Dr: den (st_env st1) (EScalar (temp_main sz)) = Ok (mkc sz b)) by (apply temp_main_den; unfold st1; cbn [st_env]; apply env_get_set_same).
+  destruct (reg_expr_facts m sz dst s st1 sd Hw He1 Hd Hs) as (lhs & Ol & Bl & Cl & Ml & Ha & Dl).
+  set (a := arch_read sd (wordsz m) (rget (x_gpr s) (oreg dst))) in *.
+  cbn [alu_reads_cf] in Hstep.
+  pose proof (emb_cf _ _ _ He1) as Ecf0. destruct (f_cf (x_fl s)) as [cin|] eqn:Fc; cbn [flag_is] in Hstep; [|discriminate]. cbn [emb_flag] in Ecf0.
+  cbn [alu alu_writes] in Hstep.
+  destruct (sbb_core st1 sz a b cin lhs (EScalar (temp_main sz)) Hwd Bl eq_refl Ha Hb Dl Dr Cl eq_refl Ml eq_refl Ecf0)
+    as (zf & sf & of & c & st2 & E1 & Ez & E0 & Zf & Sf & Of & Ec & Hasg & Hex & Hfr & Hm & Hr0 & G0 & Gz & Gs & Go & Gc).
+  set (r := U sz (a - b - X86.b2z cin)) in *.
+  destruct (frame_regs m st2 st1 Hfr) as (Fr & Fd & _).
+  set (fl' := fl_arith (x_fl s) (FB (a <? b + X86.b2z cin)) (FB (X86.sovf sz (X86.Sg sz a - X86.Sg sz b - X86.b2z cin))) sz r).
+  destruct (finish_reg m s st1 st2 dst sz sd r (T0e sz) fl' Hw He1 Hr Hi Hs Hr0 eq_refl (T0e_den _ _ _ G0) Fr Fd Hm eq_refl Gc Gz Gs Go)
+    as (o1 & st3 & s2 & Hops & Ia & Hex3 & Hwr & Hemb & Hwf).
+  fold r fl' in Hstep. rewrite Hwr in Hstep. inversion Hstep; subst s' ip.
+  destruct (mem_operand_facts m src s Hw Hsrc) as (_ & _ & _ & Im). destruct (is_mem_not_reg _ Im) as (_ & Rg).
+  set (rhs := EScalar (temp_main sz)) in *.
+  set (core := [OAssign (temp_k 1 sz) (EBin Sub lhs rhs); OAssign (temp_k 0 sz) (EBin Sub (T1e sz) (EExt Zext sz (EScalar (flag_scalar X86Lift.n_CF)))); zf; sf; of; assign_flag X86Lift.n_CF c]) in *.
+  exists (one_block addr (OLoad (temp_main sz) ae :: core ++ [o1])). split.
+  - unfold mirror_instr. rewrite Hi, Im, Rg. cbn [andb]. unfold lift_alu_load. rewrite Ea. unfold lift_alu_rhs. cbn [lift_alu_gen option_map].
+    rewrite Ol. cbn [bind]. fold rhs. rewrite E1. cbn [bind]. rewrite Ez. cbn [bind]. fold (T1e sz). rewrite E0. cbn [bind]. fold (T0e sz). rewrite Zf. cbn [bind]. rewrite Sf. cbn [bind]. rewrite Of. cbn [bind].
+    revert Ec. destruct (mk_bin Cmpltu lhs rhs) as [c1| |]; cbn [bind]; try discriminate.
+    destruct (mk_bin Cmpltu (T1e sz) (EExt Zext sz (EScalar (flag_scalar X86Lift.n_CF)))) as [c2| |]; cbn [bind]; try discriminate. intros Ec. rewrite Ec. cbn [bind].
+    rewrite Hops. cbn [bind]. reflexivity.
+  - exists st3. split; [|auto]. apply run_one_block_nb; [|discriminate|unfold core; cbn [length app]; lia|].
+    + cbn [nobranch forallb is_branch negb andb]. apply assign_nobranch. rewrite forallb_app. rewrite Hasg. cbn [forallb]. rewrite Ia. reflexivity.
+    + change (OLoad (temp_main sz) ae :: core ++ [o1]) with ([OLoad (temp_main sz) ae] ++ (core ++ [o1])).
+      rewrite (exec_ops_app [OLoad (temp_main sz) ae] _ st st1) by (cbn [exec_ops]; rewrite Ex1; reflexivity).
+      rewrite (exec_ops_app _ _ _ _ Hex). exact Hex3.
+Qed.
+
+(* ---------- sbb [m], r | imm ---------- *)
+Theorem sbb_rmw_sim m addr len sz dst src :
+  mem_operand_ok m dst -> src_operand_ok m sz src -> width_ok sz ->
+  sim_when (no_wrap sz dst) m addr len (IAlu ASbb sz dst src).
+Proof.
+  intros Hd Hsrc Hwd s st s' ip Hw He Hnw Hstep.
+  destruct (mem_operand_facts m dst s Hw Hd) as (Hea & A64 & P64 & Im). destruct (is_mem_not_reg _ Im) as (Ir & Irg).
+  unfold step in Hstep. destruct (rd_op sz dst s) as [a|] eqn:Hrd; [|discriminate].
+  destruct (load_step m sz dst s st a Hw He Hd Hwd Hnw Hrd) as (ae & ev & Ea & Ex1 & _ & Ha).
+  set (st1 := mkst (env_set (st_env st) kTM (mkc sz a)) (st_mem st)) in *.
+  pose proof (emb_set_temp m s st sz a He) as He1. fold st1 in He1.
+  assert (Dl: den (st_env st1) (EScalar (temp_main sz)) = Ok (mkc sz a)) by (apply temp_main_den; unfold st1; cbn [st_env]; apply env_get_set_same).
+  destruct (src_expr m sz src s st1 Hw He1 Hsrc) as (rhs & b & Os & Br & Hb & Dr & Cr & Rs).
+  pose proof (opv_no_T1 m sz src rhs Hsrc Os) as Mr.
+  rewrite Rs in Hstep. cbn [alu_reads_cf] in Hstep.
+  pose proof (emb_cf _ _ _ He1) as Ecf0. destruct (f_cf (x_fl s)) as [cin|] eqn:Fc; cbn [flag_is] in Hstep; [|discriminate]. cbn [emb_flag] in Ecf0.
+  cbn [alu alu_writes] in Hstep.
+  destruct (sbb_core st1 sz a b cin (EScalar (temp_main sz)) rhs Hwd eq_refl Br Ha Hb Dl Dr eq_refl Cr eq_refl Mr Ecf0)
+    as (zf & sf & of & c & st2 & E1 & Ez & E0 & Zf & Sf & Of & Ec & Hasg & Hex & Hfr & Hm & Hr0 & G0 & Gz & Gs & Go & Gc).
+  set (r := U sz (a - b - X86.b2z cin)) in *.
+  destruct (frame_regs m st2 st1 Hfr) as (Fr1 & Fd1 & _).
+  assert (Fr: forall r0, 0 <= r0 < ngpr m -> env_get (st_env st2) (gpr_name m r0, None) = env_get (st_env st) (gpr_name m r0, None)).
+  { intros r0 Hr0'. rewrite Fr1 by exact Hr0'. unfold st1. cbn [st_env]. apply env_get_set_other. destruct (reg_key_facts m r0 Hr0') as (_ & _ & _ & _ & _ & K5 & _). exact K5. }
+  assert (Fd: env_get (st_env st2) kDF = env_get (st_env st) kDF) by (rewrite Fd1; unfold st1; cbn [st_env]; apply env_get_set_other; unfold kDF, kTM; discriminate).
+  assert (Hm2: st_mem st2 = st_mem st) by (rewrite Hm; reflexivity).
+  set (fl' := fl_arith (x_fl s) (FB (a <? b + X86.b2z cin)) (FB (X86.sovf sz (X86.Sg sz a - X86.Sg sz b - X86.b2z cin))) sz r).
+  fold r fl' in Hstep.
+  destruct (option_map (fun s1 => set_fl s1 fl') (wr_op sz dst r s)) as [s2|] eqn:Hwr; [|discriminate].
+  inversion Hstep; subst s' ip.
+  destruct (finish_mem m s st st2 dst sz r ae (T0e sz) fl' Hw He Hd Hwd Hnw Ea Hr0 (T0e_den _ _ _ G0) Fr Fd Hm2 eq_refl Gc Gz Gs Go s2 Hwr)
+    as (st3 & Hex3 & Hemb & Hwf).
+  set (lhs := EScalar (temp_main sz)) in *.
+  set (core := [OAssign (temp_k 1 sz) (EBin Sub lhs rhs); OAssign (temp_k 0 sz) (EBin Sub (T1e sz) (EExt Zext sz (EScalar (flag_scalar X86Lift.n_CF)))); zf; sf; of; assign_flag X86Lift.n_CF c]) in *.
+  exists (one_block addr (OLoad (temp_main sz) ae :: core ++ [OStore ae (T0e sz)])). split.
+  - unfold mirror_instr. rewrite Ir, Im, (src_regimm _ _ _ Hsrc). cbn [andb]. unfold lift_alu_rmw. rewrite Ea. cbn [lift_alu_gen bind].
+    rewrite Os. cbn [bind]. fold lhs. rewrite E1. cbn [bind]. rewrite Ez. cbn [bind]. fold (T1e sz). rewrite E0. cbn [bind]. fold (T0e sz). rewrite Zf. cbn [bind]. rewrite Sf. cbn [bind]. rewrite Of. cbn [bind].
+    revert Ec. destruct (mk_bin Cmpltu lhs rhs) as [c1| |]; cbn [bind]; try discriminate.
+    destruct (mk_bin Cmpltu (T1e sz) (EExt Zext sz (EScalar (flag_scalar X86Lift.n_CF)))) as [c2| |]; cbn [bind]; try discriminate. intros Ec. rewrite Ec. cbn [bind].
+    cbn [bind app]. reflexivity.
+  - exists st3. split; [|auto]. apply run_one_block_nb; [|discriminate|unfold core; cbn [length app]; lia|].
+    + cbn [nobranch forallb is_branch negb andb]. fold (nobranch (core ++ [OStore ae (T0e sz)])). unfold nobranch. rewrite forallb_app.
+      pose proof (assign_nobranch _ Hasg) as Nb. unfold nobranch in Nb. rewrite Nb. reflexivity.
+    + change (OLoad (temp_main sz) ae :: core ++ [OStore ae (T0e sz)]) with ([OLoad (temp_main sz) ae] ++ (core ++ [OStore ae (T0e sz)])).
+      rewrite (exec_ops_app [OLoad (temp_main sz) ae] _ st st1) by (cbn [exec_ops]; rewrite Ex1; reflexivity).
+      rewrite (exec_ops_app _ _ _ _ Hex). exact Hex3.
+Qed.
